@@ -1,7 +1,8 @@
 """C17 – management histories keep the store consistent and the service up.
 
 Layer A: lean/DashLive/Props/C17.lean (`inv_init`, `inv_step`, `inv_reachable`,
-`delete_owns_exactly_*` over the model lean/DashLive/Model/Store.lean).
+`reachable_consistent`, `blob_files_reachable`, `delete_owns_exactly_*`,
+`not_found_changes_nothing` over the model lean/DashLive/Model/Store.lean).
 Layer B: channel `store_hist` – seeded random histories of real management API
 calls (media-group user, real Flask app, SQLite, scratch blob folder); after
 **every** step every row is read back through SQLAlchemy, abstracted, and compared
@@ -31,8 +32,10 @@ MANIFEST_ENTRY = {
         "Lean 4 proof over an abstract object-graph model of the management store (Stream, MediaFile, Blob, Key, "
         "key links, MultiPeriodStream, Period, AdaptationSet, timing references, blob files on disk; 13 management "
         "operations with the ORM cascade rules and the handlers' refusals): referential consistency is an invariant "
-        "of every finite history (inv_init, inv_step, inv_reachable) and every deletion removes exactly the rows "
-        "reachable through ownership edges and no shared row (delete_owns_exactly_*). PARTIAL: the refinement between "
+        "of every finite history (inv_init, inv_step, inv_reachable, reachable_consistent), every media file keeps "
+        "its blob file on disk (blob_files_reachable), every deletion removes exactly the rows reachable through "
+        "ownership edges and no shared row (delete_owns_exactly_stream/_media/_key/_mps), and a request for a "
+        "non-existing object changes nothing (not_found_changes_nothing). PARTIAL: the refinement between "
         "the real SQLAlchemy/SQLite store and the model is checked after every step of seeded random histories of real "
         "API calls (state and result compared), not proved; an independent oracle checks consistency of the real rows, "
         "that every listed stream/multi-period stream serves its manifests with 200 or a clean 4xx, and that indexed "
@@ -437,8 +440,8 @@ def channels(ctx):
         return
     rng = ctx.rng("store_hist")
     t0 = time.time()
-    budget = 45 if not ctx.thorough else 660
-    n_hist = ctx.scale(260, 1200)
+    budget = 90 if not ctx.thorough else 720      # safety net only: the counts below are what normally ends the loop
+    n_hist = ctx.scale(110, 160)
     max_len = 12 if not ctx.thorough else 60
     hs = []
     for ops in corpus_histories():
